@@ -246,6 +246,16 @@ def run(ctx):
                'diff_empty': [d1, d2], 'same_text': text1 == text2}
         if text1 != text2:
             ctx.fail(None, 'the reloaded signature re-serialises to a different text', rep)
+        else:
+            # what was read is the caller's to change (the evolver simulates into it): a second read of the same,
+            # untouched row must still give what was written
+            la = loaded.get_app_sig('vapp')
+            if la is not None and la.get_model_sig('Alpha') is not None:
+                la.remove_model_sig('Alpha')
+            again = Version.objects.get(pk=ver.pk).signature
+            if json.dumps(again.serialize(), sort_keys=True) != text1:
+                ctx.fail(None, 'a second read of the same row gives something else after the first copy was modified '
+                         'in memory', rep)
         if not (eq and d1 and d2):
             ctx.count('sig:not_equal_after_reload')
             if strict and kind in ('check', 'unique_cond', 'unique_defer', 'index_cond', 'index_expr'):
